@@ -10,7 +10,7 @@
 from ..model import AnalysisError
 from ..terms import T, walk_terms
 from ..absint import TOP
-from ..walk import data_derives, ret_alts, call_parts, call_arg, is_call_to, const_val, NOVAL, strip_views, unwrap_gamma, is_conj, callee_name, ctx_tree, newaxis_insertions
+from ..walk import data_derives, ret_alts, call_parts, call_arg, is_call_to, const_val, NOVAL, strip_views, unwrap_gamma, is_conj, callee_name, ctx_tree, newaxis_insertions, axis_reordering
 from .. import ein, sel
 
 B = 'pb_bss.extraction.beamformer::'
@@ -77,16 +77,18 @@ def check_mvdr(run, A):
     if n == 0:
         raise AnalysisError('get_mvdr_vector: solve call not analysable')
     # Hermitian symmetrisation of the noise PSD before solving
+    def last_two_swapped(x):
+        r = axis_reordering(x)
+        return r is not None and r[1] == ('swap', frozenset((-1, -2)))
     herm = [t for e in g.events if e.term is not None for t in walk_terms(e.term, into_mu=True)
             if t.op == 'binop' and t.args[0] == 'Add' and derives(t, 'noise_psd_matrix')
-            and any(is_call_to(x, 'method:swapaxes', 'numpy.swapaxes') for x in walk_terms(t.args[2]))]
+            and any(last_two_swapped(x) for side in (t.args[1], t.args[2]) for x in walk_terms(side))]
     okh = False
     for t in herm:
-        sw = [x for x in walk_terms(t.args[2]) if is_call_to(x, 'method:swapaxes', 'numpy.swapaxes')][0]
-        _, pos, _ = call_parts(sw)
-        axes = {const_val(p) for p in pos[1:]}
-        cj = any(is_call_to(x, 'numpy.conj', 'numpy.conjugate', 'method:conj') for x in walk_terms(t.args[2]))
-        okh = axes == {-1, -2} and cj
+        for side in (t.args[1], t.args[2]):
+            if any(last_two_swapped(x) for x in walk_terms(side)):
+                cj = any(is_call_to(x, 'numpy.conj', 'numpy.conjugate', 'method:conj') for x in walk_terms(side))
+                okh = okh or cj
     run.check(okh, 'R-ROLE', 'get_mvdr_vector: noise PSD is symmetrised as (Phi + Phi^H) / 2', fn.loc(), '', 'Hermitian symmetrisation with conj and swapaxes(-1, -2) not found',
               construct=f'R-ROLE::{q}::hermitise')
     # the matrix that is inverted is the given noise PSD (symmetrised), nothing else: loading / regularisation changes the
@@ -106,11 +108,13 @@ def check_mvdr(run, A):
 
             def base_param(x):
                 x = strip_views(x)
-                while x.op in ('mu', 'gamma') or newaxis_insertions(x) is not None:
+                while x.op in ('mu', 'gamma') or newaxis_insertions(x) is not None or is_call_to(x, 'numpy.reshape', 'numpy.broadcast_to'):
                     if x.op == 'mu':
                         x = strip_views(x.args[0])
                     elif x.op == 'gamma':
                         x = strip_views(x.args[1])
+                    elif x.op == 'call':
+                        x = strip_views(call_arg(x, 0))        # shape-only: reshape / broadcast_to in front of the stack of steering vectors
                     else:
                         x = strip_views(newaxis_insertions(x)[0])
                 return x
@@ -153,7 +157,7 @@ def check_souden_wmwf(run, A):
                   'R-ROLE', f'{name}: Phi_nn^-1 Phi_xx', fn.loc(t.node), 'stable_solve(noise, target)',
                   'stable_solve is not called as (noise PSD, target PSD): target and noise are swapped', construct=f'R-ROLE::{q}::solve-roles')
         tr = [e.term for e in g.events if e.kind == 'call' and is_call_to(e.term, 'numpy.trace')]
-        okt = bool(tr) and {const_val(call_arg(tr[0], None, 'axis1')), const_val(call_arg(tr[0], None, 'axis2'))} == {-1, -2} and call_arg(tr[0], 0) is t
+        okt = bool(tr) and {const_val(call_arg(tr[0], None, 'axis1')), const_val(call_arg(tr[0], None, 'axis2'))} == {-1, -2} and strip_views(call_arg(tr[0], 0)) is t
         run.check(okt, 'R-AXIS', f'{name}: lambda = trace of Phi_nn^-1 Phi_xx over the last two axes', fn.loc(), '', 'trace is not taken over axes (-1, -2) of the solved matrix',
                   construct=f'R-AXIS::{q}::trace')
         # selected column: index on the last axis by the reference channel
@@ -167,18 +171,18 @@ def check_souden_wmwf(run, A):
                 if len(items) == 2 and const_val(items[0]) is Ellipsis and derives(items[1], ref_param) or (len(items) == 2 and const_val(items[0]) is Ellipsis and
                                                                                                               any(call_parts(y)[0] == B + 'get_optimal_reference_channel' for y in walk_terms(items[1]))):
                     sel_ok += 1
-        want = sum(1 for x in alts if not is_call_to(strip_views(x), 'numpy.sum'))
+        want = sum(1 for x in alts if not is_call_to(strip_views(x), 'numpy.sum', 'numpy.einsum'))
         run.check(sel_ok >= 1 and sel_ok == want, 'R-ROLE', f'{name}: beamformer is the reference COLUMN of the matrix', fn.loc(), '',
                   f'{sel_ok} of {want} return paths select `[..., {ref_param}]` (last axis = column)', construct=f'R-ROLE::{q}::column-selection')
         if name == 'get_mvdr_vector_souden':
-            mats = [t2 for e in g.events if e.term is not None for t2 in walk_terms(e.term) if t2.op == 'binop' and t2.args[0] == 'Div' and t2.args[1] is t]
+            mats = [t2 for e in g.events if e.term is not None for t2 in walk_terms(e.term) if t2.op in ('binop', 'iop') and t2.args[0] == 'Div' and strip_views(t2.args[1]) is t]
             okm = False
             for m in mats:
                 d = m.args[2]
                 okm = is_call_to(d, 'numpy.maximum') and any(x is tr[0] for x in walk_terms(d)) if tr else False
             run.check(okm, 'R-ROLE', 'get_mvdr_vector_souden: matrix divided by the floored trace', fn.loc(), '', 'phi / maximum(trace.real, eps) not found', construct=f'R-ROLE::{q}::trace-division')
         else:
-            mats = [t2 for e in g.events if e.term is not None for t2 in walk_terms(e.term) if t2.op == 'binop' and t2.args[0] == 'Div' and t2.args[1] is t]
+            mats = [t2 for e in g.events if e.term is not None for t2 in walk_terms(e.term) if t2.op in ('binop', 'iop') and t2.args[0] == 'Div' and strip_views(t2.args[1]) is t]
             okm = False
             for m in mats:
                 d = strip_views(m.args[2])
